@@ -400,7 +400,23 @@ func formRoundtripCase(cfg *RunCfg, st *Stats, w *CaseWriter, idx int, distinct 
 		dt = formTypes[r.Intn(len(formTypes))]
 		st.Count("form:cross-type")
 	}
-	dst := reflect.New(dt.typ)
+	dst, guard := inArray(r, dt.typ)
+	want := srcD
+	if r.Intn(3) == 0 {
+		// dirty destination: a value decoded earlier is still in it
+		st.Count("form:dirty-destination")
+		fillAny(dst.Elem(), r, 0)
+		guard = joinGuards(guard, guardSlices(r, dst.Elem()))
+		if ft.supported && dt.typ == ft.typ {
+			old := reflect.New(dt.typ).Elem()
+			old.Set(dst.Elem())
+			want = descField(formExpectDirty(old, src.Elem()))
+		}
+		human += fmt.Sprintf(" | into %+v", dst.Elem().Interface())
+		if len(human) > 800 {
+			human = human[:800] + "..."
+		}
+	}
 	dstD := descField(dst.Elem())
 	if eo == oOK {
 		do, msg := guardedUnmarshal(formC, enc, dst.Interface())
@@ -410,7 +426,10 @@ func formRoundtripCase(cfg *RunCfg, st *Stats, w *CaseWriter, idx int, distinct 
 		if do == oPanic {
 			st.Fail(idx, "form-decode-panic", "form decoder panicked: "+msg, human)
 		}
-		if ft.supported && dt.typ == ft.typ && (do != oOK || got != srcD) {
+		if g := guard(); g != "" {
+			st.Fail(idx, "form-write-outside", "form decoder wrote outside the destination: "+g, human)
+		}
+		if ft.supported && dt.typ == ft.typ && (do != oOK || got != want) {
 			what := "decode(encode(v)) != v"
 			if do == oErr {
 				what = "decode(encode(v)) failed: " + msg
@@ -490,9 +509,10 @@ func formGarbageCase(cfg *RunCfg, st *Stats, w *CaseWriter, idx int, distinct Di
 		return
 	}
 	st.Count("formdec:" + ft.name)
-	dst := reflect.New(ft.typ)
-	if r.Intn(4) == 0 {
+	dst, guard := inArray(r, ft.typ)
+	if r.Intn(3) == 0 {
 		fillAny(dst.Elem(), r, 0) // pre-filled destination: untouched fields must be retained
+		guard = joinGuards(guard, guardSlices(r, dst.Elem()))
 	}
 	dstD := descField(dst.Elem())
 	human := fmt.Sprintf("form decode %q into %s %+v", data, ft.name, dst.Elem().Interface())
@@ -502,6 +522,9 @@ func formGarbageCase(cfg *RunCfg, st *Stats, w *CaseWriter, idx int, distinct Di
 	do, msg := guardedUnmarshal(formC, data, dst.Interface())
 	if do == oPanic {
 		st.Fail(idx, "form-decode-panic", "form decoder panicked: "+msg, human)
+	}
+	if g := guard(); g != "" {
+		st.Fail(idx, "form-write-outside", "form decoder wrote outside the destination: "+g, human)
 	}
 	st.Count(fmt.Sprintf("formdec-outcome:%d", do))
 	in := VL(VS("formdec"), dstD, VB(data))
@@ -518,37 +541,61 @@ func formGarbageCase(cfg *RunCfg, st *Stats, w *CaseWriter, idx int, distinct Di
 
 // a plain destination: the Go value handed to Unmarshal, its description, and a reader of the result
 type plainDst struct {
-	arg  interface{}
-	desc string
-	read func() string
+	arg   interface{}
+	desc  string
+	read  func() string
+	guard guardFn
+}
+
+func (d plainDst) check() string {
+	if d.guard == nil {
+		return ""
+	}
+	return d.guard()
+}
+
+func sliceDst(r *rand.Rand, n int) plainDst {
+	old, g := byteWindow(r, n, "len")
+	return plainDst{old, VL(VS("dslice"), VB(old)), func() string { return VL(VS("bytes"), VB(old)) }, g}
+}
+
+func bytesPtrDst(r *rand.Rand, n int) plainDst {
+	b, g := byteWindow(r, n, "cap")
+	return plainDst{&b, VS("dbytes"), func() string { return VL(VS("bytes"), VB(b)) }, g}
 }
 
 func mkPlainDst(r *rand.Rand, t reflect.Type, fill bool) plainDst {
 	// reflect path: a pointer to a fresh (zero or filled) value of type t
-	p := reflect.New(t)
+	p, g := inArray(r, t)
 	if fill {
 		fillAny(p.Elem(), r, 0)
 	}
-	return plainDst{p.Interface(), VL(VS("refl"), descLeaf(p)), func() string { return descLeaf(p) }}
+	return plainDst{p.Interface(), VL(VS("refl"), descLeaf(p)), func() string { return descLeaf(p) }, g}
 }
 
 func randPlainDst(r *rand.Rand) plainDst {
-	switch r.Intn(18) {
+	switch r.Intn(21) {
+	case 18, 19:
+		return sliceDst(r, r.Intn(12))
+	case 20:
+		return bytesPtrDst(r, r.Intn(8))
 	case 16:
-		return plainDst{(*string)(nil), VS("dstrnil"), func() string { return VS("nil") }}
+		return plainDst{(*string)(nil), VS("dstrnil"), func() string { return VS("nil") }, nil}
 	case 17:
-		return plainDst{(*[]byte)(nil), VS("dbytesnil"), func() string { return VS("nil") }}
+		return plainDst{(*[]byte)(nil), VS("dbytesnil"), func() string { return VS("nil") }, nil}
 	case 0:
-		return plainDst{nil, VS("nil"), func() string { return VS("nil") }}
+		return plainDst{nil, VS("nil"), func() string { return VS("nil") }, nil}
 	case 1:
-		s := new(string)
-		return plainDst{s, VS("dstr"), func() string { return VL(VS("str"), VB([]byte(*s))) }}
+		sp, g := inArray(r, reflect.TypeOf(""))
+		s := sp.Interface().(*string)
+		if r.Intn(2) == 0 {
+			*s = genString(r)
+		}
+		return plainDst{s, VS("dstr"), func() string { return VL(VS("str"), VB([]byte(*s))) }, g}
 	case 2:
-		old := RandBytes(r, r.Intn(12))
-		return plainDst{old, VL(VS("dslice"), VB(old)), func() string { return VL(VS("bytes"), VB(old)) }}
+		return sliceDst(r, r.Intn(12))
 	case 3:
-		b := make([]byte, r.Intn(5), r.Intn(10)+5)
-		return plainDst{&b, VS("dbytes"), func() string { return VL(VS("bytes"), VB(b)) }}
+		return bytesPtrDst(r, r.Intn(8))
 	case 4:
 		// non-pointer or nil-pointer destinations on the reflect path
 		t := plainLeafTypes[r.Intn(len(plainLeafTypes))]
@@ -556,14 +603,14 @@ func randPlainDst(r *rand.Rand) plainDst {
 		fillAny(v, r, 0)
 		vv := reflect.ValueOf(v.Interface())
 		if !vv.IsValid() {
-			return plainDst{nil, VS("nil"), func() string { return VS("nil") }}
+			return plainDst{nil, VS("nil"), func() string { return VS("nil") }, nil}
 		}
 		switch v.Interface().(type) {
 		case *string, []byte, *[]byte, string:
 			// these hit the direct cases of the type switch; covered above
 			return mkPlainDst(r, t, false)
 		}
-		return plainDst{v.Interface(), VL(VS("refl"), descLeaf(v)), func() string { return descLeaf(v) }}
+		return plainDst{v.Interface(), VL(VS("refl"), descLeaf(v)), func() string { return descLeaf(v) }, nil}
 	case 5:
 		return mkPlainDst(r, plainOpaqueTypes[r.Intn(len(plainOpaqueTypes))], false)
 	default:
@@ -594,6 +641,9 @@ func plainCase(cfg *RunCfg, st *Stats, w *CaseWriter, idx int, distinct Distinct
 		if do == oPanic {
 			st.Fail(idx, "plain-decode-panic", "plain decoder panicked: "+msg, human)
 		}
+		if g := d.check(); g != "" {
+			st.Fail(idx, "plain-write-outside", "plain decoder wrote outside the destination: "+g, human)
+		}
 		in := VL(VS("plaindec"), d.desc, VB(data))
 		w.Add(in, decObs(do, d.read()))
 		distinct.Add(in)
@@ -618,7 +668,10 @@ func plainCase(cfg *RunCfg, st *Stats, w *CaseWriter, idx int, distinct Distinct
 			src, srcD = &s, VL(VS("dstr"), VBool(true), VB([]byte(s)))
 		}
 		out := new(string)
-		d = plainDst{out, VS("dstr"), func() string { return VL(VS("str"), VB([]byte(*out))) }}
+		if r.Intn(2) == 0 {
+			*out = genString(r) // dirty destination
+		}
+		d = plainDst{out, VS("dstr"), func() string { return VL(VS("str"), VB([]byte(*out))) }, nil}
 		want = VL(VS("str"), VB([]byte(s)))
 	case c == 3 || c == 4:
 		st.Count("plain:direct-bytes")
@@ -629,11 +682,9 @@ func plainCase(cfg *RunCfg, st *Stats, w *CaseWriter, idx int, distinct Distinct
 			src, srcD = &b, VL(VS("dbytes"), VBool(true), VB(b))
 		}
 		if r.Intn(3) == 0 {
-			old := RandBytes(r, len(b))
-			d = plainDst{old, VL(VS("dslice"), VB(old)), func() string { return VL(VS("bytes"), VB(old)) }}
+			d = sliceDst(r, len(b))
 		} else {
-			out := make([]byte, r.Intn(5), 5+r.Intn(40))
-			d = plainDst{&out, VS("dbytes"), func() string { return VL(VS("bytes"), VB(out)) }}
+			d = bytesPtrDst(r, r.Intn(2*len(b)+2))
 		}
 		want = VL(VS("bytes"), VB(b))
 	case c == 5:
@@ -667,14 +718,19 @@ func plainCase(cfg *RunCfg, st *Stats, w *CaseWriter, idx int, distinct Distinct
 			}
 		}
 		// destination: pointer to a zero value of the same type, nil pointers inside replaced
-		dp := reflect.New(t)
-		zeroPtrs(dp.Elem())
-		d = plainDst{dp.Interface(), VL(VS("refl"), descLeaf(dp)), func() string { return descLeaf(dp) }}
+		dp, g := inArray(r, t)
+		if r.Intn(2) == 0 {
+			st.Count("plain:dirty-destination")
+			fillNoNil(dp.Elem(), r)
+		} else {
+			zeroPtrs(dp.Elem())
+		}
+		d = plainDst{dp.Interface(), VL(VS("refl"), descLeaf(dp)), func() string { return descLeaf(dp) }, g}
 		switch s := d.arg.(type) {
 		case *string:
-			d = plainDst{s, VS("dstr"), func() string { return VL(VS("str"), VB([]byte(*s))) }}
+			d = plainDst{s, VS("dstr"), func() string { return VL(VS("str"), VB([]byte(*s))) }, g}
 		case *[]byte:
-			d = plainDst{s, VS("dbytes"), func() string { return VL(VS("bytes"), VB(*s)) }}
+			d = plainDst{s, VS("dbytes"), func() string { return VL(VS("bytes"), VB(*s)) }, g}
 		}
 		if noNil(v) {
 			want = coreDesc(v)
@@ -688,6 +744,9 @@ func plainCase(cfg *RunCfg, st *Stats, w *CaseWriter, idx int, distinct Distinct
 		dec = decObs(do, d.read())
 		if do == oPanic {
 			st.Fail(idx, "plain-decode-panic", "plain decoder panicked: "+msg, human)
+		}
+		if g := d.check(); g != "" {
+			st.Fail(idx, "plain-write-outside", "plain decoder wrote outside the destination: "+g, human)
 		}
 		if want != "" {
 			got := d.read()
